@@ -404,8 +404,9 @@ func c07RowChunks(tier string) []SeqChunk {
 			for mi, msg := range msgs {
 				for _, how := range []string{"complete", "abort"} {
 					for _, trim := range []bool{false, true} {
-						for _, withDecor := range []bool{false, true} {
-							id := fmt.Sprintf("row w=%d message-filler on-%s msg=%d trim=%v decor=%v", w, how, mi, trim, withDecor)
+						for _, decorMode := range []string{"false", "true", "growing"} {
+							withDecor := decorMode == "true"
+							id := fmt.Sprintf("row w=%d message-filler on-%s msg=%d trim=%v decor=%s", w, how, mi, trim, decorMode)
 							env.Case(id, func() (string, bool, string, string) {
 								out := &rowRec{}
 								mrc := make(chan interface{})
@@ -416,6 +417,17 @@ func c07RowChunks(tier string) []SeqChunk {
 								}
 								if withDecor {
 									opts = append(opts, mpb.PrependDecorators(decor.Name("job")), mpb.AppendDecorators(decor.Percentage()))
+								}
+								if decorMode == "growing" {
+									// the room left for the message shrinks from one frame of the finished bar to the next
+									calls := 0
+									opts = append(opts, mpb.PrependDecorators(decor.Any(func(decor.Statistics) string {
+										calls++
+										if calls == 1 {
+											return "j"
+										}
+										return strings.Repeat("j", w/2+1)
+									})))
 								}
 								b := p.AddBar(3, opts...)
 								if how == "complete" {
@@ -430,14 +442,18 @@ func c07RowChunks(tier string) []SeqChunk {
 								if len(out.writes) == 0 {
 									return "", false, "no-frame", "no frame was written"
 								}
-								line := strings.TrimSuffix(out.writes[0], "\n")
-								if strings.Contains(line, "\n") {
-									return line, true, "row-multiline", fmt.Sprintf("%+q", line)
+								all := ""
+								for fi, wr := range out.writes {
+									line := strings.TrimSuffix(stripansi.Strip(wr), "\n")
+									all += line + "|"
+									if strings.Contains(line, "\n") {
+										return all, true, "row-multiline", fmt.Sprintf("%+q", line)
+									}
+									if dw := dispWidth(line); dw > w {
+										return all, true, "message-filler-overflow", fmt.Sprintf("frame %d: the row of a bar that was %sd is %d columns wide on a %d column terminal: %+q", fi, how, dw, w, line)
+									}
 								}
-								if dw := dispWidth(line); dw > w {
-									return line, true, "message-filler-overflow", fmt.Sprintf("the row of a bar that was %sd is %d columns wide on a %d column terminal: %+q", how, dw, w, line)
-								}
-								return line, true, "", ""
+								return all, true, "", ""
 							})
 						}
 					}
